@@ -110,6 +110,8 @@ def proposalOfMsg (m : Json) : Gov.Proposal :=
     clLoss := (if J.has m "loss" then [("uctk", J.intOf m "loss")] else []), status := 0, isCouncil := false, proposer := "", totalDeposit := [], submitTime := 0,
     depositEnd := 0, votingStart := 0, votingEnd := 0, tally := ⟨0, 0, 0, 0⟩ }
 
+def isModuleAddr (ds : DS) (a : Addr) : Bool := ds.sys.names.any (fun (n, x) => n.startsWith "mod." && x == a)
+
 /-- apply one message of the trace to the model; `none` = message kind not modelled -/
 def applyMsg (ds : DS) (stake : Gov.StakeView) (w : MW) (m : Json) : Option (Except Err MW) :=
   let e := oracleEnv ds
@@ -191,6 +193,14 @@ def applyMsg (ds : DS) (stake : Gov.StakeView) (w : MW) (m : Json) : Option (Exc
     -- SELFDESTRUCT naming an address without an account: the contract may not create accounts (Burrow's permission model,
     -- outside the Cvm model) and the call fails; the comparison is "a failed call changes nothing"
     if J.strOf m "kind" == "suicideTo" && J.has m "targetExists" && !J.boolOf m "targetExists" then some (err "cvm:beneficiary-has-no-account")
+    -- likewise a CALL to an address without an account (a module account that was never used): Burrow wants to create it first
+    else if J.strOf m "kind" == "forward" && J.has m "targetExists" && !J.boolOf m "targetExists" then some (err "cvm:target-has-no-account")
+    -- module accounts receive coins only through the bank module (which refuses plain sends to them): a value call, an inner
+    -- CALL forwarding the value, or a SELFDESTRUCT that would credit one fails as a whole (x/cvm/keeper/state.go UpdateAccount)
+    else if isModuleAddr ds (J.strOf m "callee") && J.intOf m "value" > 0 then some (err "cvm:module-account-receives")
+    else if J.strOf m "kind" == "forward" && isModuleAddr ds target && J.intOf m "value" > 0 then some (err "cvm:module-account-receives")
+    else if J.strOf m "kind" == "suicideTo" && isModuleAddr ds target && w.l.balOf (J.strOf m "callee") "uctk" + J.intOf m "value" > 0 then
+      some (err "cvm:module-account-receives")
     else
     some ((Cvm.call "uctk" w.l w.v w.k (J.strOf m "caller") (J.strOf m "callee") (J.intOf m "value") w0 (isZero || data == "") target (data != "")).map
       (fun (l, k) => { w with l := l, k := k }))
@@ -627,6 +637,7 @@ def handleEnd (ds : DS) (j : Json) : IO DS := do
   if J.has j "panic" then
     ds ← finding ds "panic" "C08" ("end:" ++ J.strOf (J.get j "panic") "site") (J.strOf (J.get j "panic") "value")
     return ds
+  let stakeBeforeEnd := ds.stake
   ds := loadObs ds (J.get j "st")
   -- the staking end-blocker runs before governance's: the tally reads the staking state as it is after this block
   let preStake := ds.stake
@@ -851,7 +862,20 @@ def handleEnd (ds : DS) (j : Json) : IO DS := do
               | some vi => if vi.2.2.raw == 0 then acc2 else acc2 + Dec.truncateInt (Dec.mulInt (Dec.quo d.2.2 vi.2.2) vi.2.1)
               | none => acc2) acc) 0
           let view := if p.kind == "claim" then { preStake with totalBonded := claimDenominator } else preStake
-          let (pass, veto, decisive) := GovD.specStakeRule view votes tp
+          let (pass, veto, decisive0) := GovD.specStakeRule view votes tp
+          -- a claim paid in this very end-blocker takes stake from validators after the tally has read it: the observed state is
+          -- then not the one the tally saw.  The rule is decisive there only if the state before the end-blockers gives the
+          -- same verdict (the payout moves the shares by less than the distance to any threshold).
+          let paidHere := ds.hasShield && ds.gov.proposals.any (fun x => x.kind == "claim" && x.status == 4 &&
+            ((pre.g.proposals.find? (·.id == x.id)).map (·.status)).getD 0 != 4)
+          let denomBefore : Int := identities.foldl (fun acc a => (stakeBeforeEnd.dels.filter (·.1 == a)).foldl (fun acc2 d =>
+              match stakeBeforeEnd.vals.find? (·.1 == d.2.1) with
+              | some vi => if vi.2.2.raw == 0 then acc2 else acc2 + Dec.truncateInt (Dec.mulInt (Dec.quo d.2.2 vi.2.2) vi.2.1)
+              | none => acc2) acc) 0
+          let viewBefore := if p.kind == "claim" then { stakeBeforeEnd with totalBonded := denomBefore } else stakeBeforeEnd
+          let (passB, vetoB, decisiveB) := GovD.specStakeRule viewBefore votes tp
+          let decisive := decisive0 && (!paidHere || (decisiveB && passB == pass && vetoB == veto))
+          if paidHere && !decisive then ds := stat ds "sit.c12.tally_state_unobservable_in_payout_block"
           -- a payout that cannot be made fails the proposal although the vote passed
           let pass := pass && !(p.kind == "claim" && q.status == 6 && false)
           if decisive && !(p.kind == "claim" && claimDenominator == 0) then
